@@ -1020,6 +1020,8 @@ class BodyGen:
                 if ty not in WIDTH:
                     raise Untranslatable(f"{fname}: local `{name}` of type {ty}")
                 self.scalars[name] = ty
+        if self.obj is None:
+            raise Untranslatable(f"{fname}: no pointer to the object (`CSha256 *p = this;` or a `Sha256*` parameter)")
         self.defs, self.nloop, self.counter = [], 0, [0]
 
     # -- helpers
@@ -1345,11 +1347,13 @@ class BodyGen:
         return head + "".join(self.defs) + main
 
 
-FALLBACK = {"WriteByteBlock": (f"(p : {SHA}) : {SHA}", "Nstd.Sha.writeByteBlock p"),
+FALLBACK = {"reset": (f"(p : {SHA}) : {SHA}", "Nstd.Sha.reset p"),
+            "WriteByteBlock": (f"(p : {SHA}) : {SHA}", "Nstd.Sha.writeByteBlock p"),
             "update": (f"(p : {SHA}) (data : List UInt8) : {SHA}", "Nstd.Sha.update p data"),
             "finalize": (f"(p : {SHA}) : List UInt8 × {SHA}", "Nstd.Sha.finalize p")}
 PROOFS = VERIF / "lean" / "Nstd" / "Sha" / "body_proofs"
-FALLBACK_PROOF = {"WriteByteBlock": "theorem WriteByteBlock_eq (p : Sha) : Sha256Body.WriteByteBlock p = writeByteBlock p := rfl\n",
+FALLBACK_PROOF = {"reset": "theorem gen_reset_eq (p : Sha) (hs : p.state.length = 8) : Sha256Body.reset p = reset p := rfl\n",
+                  "WriteByteBlock": "theorem WriteByteBlock_eq (p : Sha) : Sha256Body.WriteByteBlock p = writeByteBlock p := rfl\n",
                   "update": "theorem gen_update_eq (p : Sha) (data : List UInt8) : Sha256Body.update p data = update p data := rfl\n",
                   "finalize": "theorem gen_finalize_eq (p : Sha) : Sha256Body.finalize p = finalize p := rfl\n"}
 
@@ -1404,6 +1408,14 @@ def body_functions(raw):
         return g.run(f"/-- `Sha256::finalize({squeeze(params)})`: `{squeeze(body)}`; result: the bytes written through the output pointer, and the object -/\n",
                      "({st}.out, {st}.p)", f"(p : {SHA}) : List UInt8 × {SHA}")
 
+    def rst():
+        params, body = function_text(raw, r"void\s+Sha256::reset\s*\(([^)]*)\)\s*\{", "Sha256::reset")
+        if params.strip():
+            raise Untranslatable(f"reset: parameter list `{params}`")
+        g = BodyGen("reset", parse_function(body), None)
+        return g.run(f"/-- `Sha256::reset()`: `{squeeze(body)}` -/\n", "{st}.p", f"(p : {SHA}) : {SHA}")
+
+    one("reset", rst)
     one("WriteByteBlock", wbb)
     one("update", upd)
     one("finalize", fin)
@@ -1418,14 +1430,14 @@ def body_proofs(ns, status):
          f"import Nstd.Generated.{ns}Body\nimport Nstd.Sha.LemmasBodyAux\n"
          "namespace Nstd.Sha\nopen Nstd.Generated Nstd.Generated.Sha256\nset_option linter.unusedSimpArgs false\n\n"
          "theorem transform_call_eq (state data : List UInt32) : Sha256.Transform_call state data = transform state data := rfl\n\n")
-    for name in ("WriteByteBlock", "update", "finalize"):
+    for name in ("reset", "WriteByteBlock", "update", "finalize"):
         if status[name] is None:
             t += (PROOFS / f"{name}.lean.in").read_text() + "\n"
         else:
             t += f"/-- `{name}` was not translated this run: {status[name].replace('-/', '- /')} -/\n" + FALLBACK_PROOF[name] + "\n"
     t += ("/-- which bodies were translated this run (`true`) and which fell back to the model function -/\n"
           "def translatedBodies : List (String × Bool) := [" +
-          ", ".join(f'("{n}", {"true" if status[n] is None else "false"})' for n in ("WriteByteBlock", "update", "finalize")) + "]\n\n")
+          ", ".join(f'("{n}", {"true" if status[n] is None else "false"})' for n in ("reset", "WriteByteBlock", "update", "finalize")) + "]\n\n")
     return t + "end Nstd.Sha\n"
 
 
